@@ -14,7 +14,7 @@ import numpy as np
 
 from ..index import AnchorMissing, Unrecognised
 from ..absval import Evaluator, Obj, MethodRunner, EvalRaised
-from ..astutil import (u, body_walk, local_env, always_terminates, always_raises, func_calls, walk_local, root_name,
+from ..astutil import (u, inline_locals, body_walk, local_env, always_terminates, always_raises, func_calls, walk_local, root_name,
                        statements, raise_name)
 from .. import sym
 
@@ -336,6 +336,76 @@ def r5_stale_shape(ctx):
     f(ctx)
 
 
+from .c07 import r2_operands_encoded as _assigned_values_encoded      # item assignment re-targets the value to the array's encoding first
+
+
+def r6_encoding_identity(ctx):
+    """`s.encoding == target` lets as_encoded_array return the codes untouched, and a list of encoded arrays is concatenated raw under the first
+    element's encoding: both are right only if equality of alphabet encodings means the same letters in the same order, and if EVERY element of
+    the list is compared."""
+    ix = ctx.index
+    eq = ix.func("bionumpy.encodings.alphabet_encoding", "AlphabetEncoding.__eq__")
+    o = eq.params[1]
+    rets = [r for r in body_walk(eq.node) if isinstance(r, ast.Return)]
+    final = [r for r in rets if not (isinstance(r.value, ast.Constant) and r.value.value is False)]
+    ctx.need(len(final) == 1, "AlphabetEncoding.__eq__: expected one non-constant return")
+    v = final[0].value
+    if isinstance(v, ast.Call) and u(v.func) == "bool" and len(v.args) == 1:
+        v = v.args[0]
+    c = sym.canon(v)
+    tables = {a.attr for a in ast.walk(v) if isinstance(a, ast.Attribute) and a.attr.startswith("_")}
+    if c == sym.canon(sym.parse_expr(f"np.all(self._alphabet == {o}._alphabet)")):
+        ok = True
+        lg = [t for t in body_walk(eq.node) if isinstance(t, ast.If) and sym.canon(t.test) == sym.canon(sym.parse_expr(f"len(self._alphabet) != len({o}._alphabet)"))
+              and any(isinstance(r, ast.Return) and isinstance(r.value, ast.Constant) and r.value.value is False for r in t.body)]
+        ctx.ob(eq.where, "alphabets of different length are unequal (decided before the element-wise comparison, which would broadcast)", bool(lg), "", key="C06-R6|eq-length")
+    elif c == sym.canon(sym.parse_expr(f"np.all(self._lookup == {o}._lookup)")):
+        ok = True
+    elif tables and tables <= {"_mask"}:
+        ok = False
+    else:
+        raise Unrecognised(f"{eq.where}: equality of alphabet encodings is decided by `{u(v)}`")
+    ctx.ob(eq.where, "two alphabet encodings are equal only if they assign the same code to every letter (same letters in the same order); the table of accepted "
+           "bytes is the same for permuted alphabets and cannot decide it", ok, u(v), key="C06-R6|eq-ordered")
+    inits = [e for e in body_walk(eq.node) if isinstance(e, ast.Expr) and isinstance(e.value, ast.Call) and u(e.value.func).endswith("._initialize")]
+    ctx.ob(eq.where, "both encodings are initialised before their tables are compared", {u(e.value.func) for e in inits} >= {"self._initialize", f"{o}._initialize"}, "", key="C06-R6|eq-init")
+    isn = [t for t in body_walk(eq.node) if isinstance(t, ast.If) and sym.canon(t.test) == f"not(isinstance({o}, AlphabetEncoding))"]
+    ctx.ob(eq.where, "an alphabet encoding never equals a non-alphabet encoding", bool(isn), "", key="C06-R6|eq-type")
+    f = ix.func(EA_MOD, "_list_of_encoded_arrays_as_encoded_ragged_array")
+    lst = f.params[0]
+    env = local_env(f.node)
+    asserts = [a for a in body_walk(f.node) if isinstance(a, ast.Assert)]
+    quant = None
+    for a in asserts:
+        t = a.test
+        if isinstance(t, ast.Call) and u(t.func) in ("all", "any") and t.args and isinstance(t.args[0], ast.GeneratorExp):
+            ge = t.args[0]
+            if isinstance(ge.elt, ast.Compare) and ".encoding" in u(ge.elt) and root_name(ge.generators[0].iter) == lst:
+                quant = (u(t.func), ge)
+    if quant is None:
+        raise Unrecognised(f"{f.where}: no check that the elements of the list share one encoding")
+    ge = quant[1]
+    var = u(ge.generators[0].target)
+    okc = sym.canon(ge.elt, env) == sym.canon(sym.parse_expr(f"{var}.encoding == {lst}[0].encoding"))
+    ctx.ob(f.where, "a list of encoded arrays is accepted only if EVERY element has the encoding the result is labelled with", quant[0] == "all" and okc and not ge.generators[0].ifs and len(ge.generators) == 1 and u(ge.generators[0].iter) == lst,
+           u(ge), key="C06-R6|list-all-same")
+    def seq_env(stmts, env0):
+        e = dict(env0)
+        for st in stmts:
+            if isinstance(st, ast.Assign) and len(st.targets) == 1 and isinstance(st.targets[0], ast.Name):
+                e[st.targets[0].id] = inline_locals(st.value, e)
+            elif isinstance(st, ast.Return):
+                yield st, dict(e)
+            elif isinstance(st, ast.If):
+                yield from seq_env(st.body, e)
+                yield from seq_env(st.orelse, e)
+    for r, renv in seq_env(f.node.body, {}):
+        c = sym.canon(r.value, renv)
+        ok = c in (sym.canon(sym.parse_expr(f"EncodedArray(np.array([a.data for a in {lst}]), {lst}[0].encoding)")),
+                   sym.canon(sym.parse_expr(f"EncodedRaggedArray(EncodedArray(np.concatenate([a.data for a in {lst}]), {lst}[0].encoding), [len(a) for a in {lst}])")))
+        ctx.ob(f.where, "the elements' codes are joined in list order and labelled with that common encoding; row lengths are the elements' lengths", ok, c, key="C06-R6|list-join")
+
+
 RULES = [
     ("C06-R5", r5_stale_shape),
     ("C06-R1", r1_accepted_bytes),
@@ -343,6 +413,8 @@ RULES = [
     ("C06-R2", r2_retarget_guard),
     ("C06-R3", r3_change_encoding),
     ("C06-R4", r4_shape_plumbing),
+    ("C06-R6", r6_encoding_identity),
+    ("C06-R7", _assigned_values_encoded),
 ]
 
 
